@@ -330,19 +330,73 @@ func b01(b bool) string {
 	return "0"
 }
 
-func canonErr(err error) string {
+func canonErr(err error) string { return vlib.Err(err) }
+
+// kvProbe provokes, on the library itself, the error of one keys/values function: for nil arguments
+// (nilArgs) or for non-nil arguments of lengths nk != nv.
+type kvProbe func(nilArgs bool, nk, nv int) error
+
+func probeToMap(nilArgs bool, nk, nv int) error {
+	if nilArgs {
+		_, err := mapx.ToMap[int, int](nil, nil)
+		return err
+	}
+	_, err := mapx.ToMap(make([]int, nk), make([]int, nv))
+	return err
+}
+
+func probeNewPairs(nilArgs bool, nk, nv int) error {
+	if nilArgs {
+		_, err := pair.NewPairs[int, int](nil, nil)
+		return err
+	}
+	_, err := pair.NewPairs(make([]int, nk), make([]int, nv))
+	return err
+}
+
+// canonKV classifies the error of mapx.ToMap / pair.NewPairs. Both build their two errors in place
+// (no sentinel, no constructor), so the references come from the function itself: "err:nil" reads like
+// the error it returns for nil arguments, "err:len" like the one it returns for two lengths that occur
+// as integers in the message. The wording of the messages plays no role.
+var kvCache = map[string]string{}
+
+func canonKV(err error, name string, probe kvProbe) string {
 	if err == nil {
 		return "ok"
 	}
-	s := vlib.Err(err)
-	if s != "err:other" {
+	key := name + "\x00" + err.Error()
+	if tok, ok := kvCache[key]; ok {
+		return tok
+	}
+	tok := canonKV1(err, probe)
+	kvCache[key] = tok
+	return tok
+}
+
+func canonKV1(err error, probe kvProbe) string {
+	if s := vlib.Err(err); s != "err:other" {
 		return s
 	}
 	msg := err.Error()
-	switch {
-	case strings.Contains(msg, "nil"):
+	same := func(nilArgs bool, nk, nv int) (eq bool) {
+		if p := vlib.Catch(func() {
+			ref := probe(nilArgs, nk, nv)
+			eq = ref != nil && ref.Error() == msg
+		}); p != "" {
+			return false
+		}
+		return eq
+	}
+	if same(true, 0, 0) {
 		return "err:nil"
-	case strings.Contains(msg, "长度不同"):
+	}
+	const maxProbeLen = 1 << 16
+	if _, _, ok := vlib.MatchInts2(msg, func(a, b int64) string {
+		if a < 0 || b < 0 || a == b || a > maxProbeLen || b > maxProbeLen || !same(false, int(a), int(b)) {
+			return ""
+		}
+		return msg
+	}); ok {
 		return "err:len"
 	}
 	return "err:other"
@@ -464,7 +518,7 @@ func (f *fam[T]) call(w []string, osrc, odst []T) string {
 	case "mx.tomap":
 		m, err := mapx.ToMap(src, dst)
 		if err != nil {
-			return canonErr(err) + " " + mut()
+			return canonKV(err, "mapx.ToMap", probeToMap) + " " + mut()
 		}
 		return "ok:" + f.mapStr(m) + " " + nn(m == nil) + " " + mut()
 	case "mx.keys", "mx.values", "mx.keysvalues", "mx.roundtrip":
@@ -508,7 +562,7 @@ func (f *fam[T]) call(w []string, osrc, odst []T) string {
 			ks, vs := mapx.KeysValues(m)
 			m2, err := mapx.ToMap(ks, vs)
 			if err != nil {
-				res = canonErr(err)
+				res = canonKV(err, "mapx.ToMap", probeToMap)
 			} else {
 				res = "ok:" + f.mapStr(m2)
 			}
@@ -517,7 +571,7 @@ func (f *fam[T]) call(w []string, osrc, odst []T) string {
 	case "pr.new":
 		ps, err := pair.NewPairs(src, dst)
 		if err != nil {
-			return canonErr(err) + " " + mut()
+			return canonKV(err, "pair.NewPairs", probeNewPairs) + " " + mut()
 		}
 		return "ok:" + f.pairs(ps) + " " + nn(ps == nil) + " " + mut()
 	case "pr.split", "pr.flatten":
